@@ -1374,6 +1374,16 @@ def np_sqrt(it, v):
         import math
 
         return math.sqrt(v)
+    if isinstance(v, (Arr, Vec)):
+        vec = _vec_of(v)
+        p = it.path
+        sq = p.ghost.get("__sqrt__")
+        if sq is None:
+            sq = z3.Function("sqrt", z3.RealSort(), z3.RealSort())
+            p.ghost["__sqrt__"] = sq
+            p.ghost["__sqrt_seen__"] = set()
+        p.add_ufact(UFact(1, lambda i: z3.And(sq(lift(vec.f(i), "real")) >= 0, sq(lift(vec.f(i), "real")) * sq(lift(vec.f(i), "real")) == lift(vec.f(i), "real")), [(0, vec.n)], "sqrt(v)"))
+        return Arr.new(Vec(vec.n, lambda i: sq(lift(vec.f(i), "real")), "real"))
     if _is_arrayish(v):
         raise Unsupported("vector sqrt")
     p = it.path
@@ -1645,6 +1655,8 @@ def pow2_at(it, e):
             p.pc.append(t == z3.RealVal(f"{fr.numerator}/{fr.denominator}"))
             return t
     p.pc.append(t > 0)
+    # values at the small exponents that code compares against (frexp exponents, zero weights)
+    p.pc.append(z3.And(z3.Implies(e == 0, t == 1), z3.Implies(e == 1, t == 2), z3.Implies(e == -1, t == z3.RealVal("1/2"))))
     ne = z3.simplify(-e)
     tn = pow2_at(it, ne) if ne.get_id() not in seen else f(ne)
     p.pc.append(t * tn == 1)
